@@ -48,8 +48,53 @@ Fixpoint float_tail (s : string) (seen : bool) : bool :=
 Definition is_float_lit (s : string) : bool :=
   match s with String c r => if Ascii.eqb c "-" then float_tail r false else float_tail s false | EmptyString => false end.
 
+(* texts are compared up to the numbers drawn from sql.Ctx.Id(): jp_12 -> jp_ *)
+Fixpoint strip_jp (st : nat) (s : string) : string :=
+  match s with
+  | EmptyString => EmptyString
+  | String c r =>
+    if Nat.eqb st 3 && is_digit c then strip_jp 3 r
+    else String c (strip_jp (if Ascii.eqb c "j" then 1
+                             else if Nat.eqb st 1 && Ascii.eqb c "p" then 2
+                             else if Nat.eqb st 2 && Ascii.eqb c "_" then 3 else 0)%nat r)
+  end.
+Definition expr_text (e : expr) : string := strip_jp 0 (fst (rexpr e no_opts rst0)).
+(* the planner-local objects of a query whose text SqlEval interprets as a whole: the json extraction map of
+   every `| json` stage and the lambda of every `| drop` stage *)
+Definition frag_cands (q : strsel) : list (string * expr) :=
+  flat_map (fun s => match s with
+                     | PParser PJson ps =>
+                       match all_paths ps with
+                       | Some paths => let e := sql_json_parser (map pp_label ps) paths in [(expr_text e, e)]
+                       | None => [] end
+                     | PDrop ps => let e := Sep "" [Raw "(k,v) -> "; Sep " and " (map drop_clause ps)] in [(expr_text e, e)]
+                     | _ => [] end) (sel_pipeline q).
+Fixpoint cand_lookup (t : string) (cs : list (string * expr)) : option expr :=
+  match cs with [] => None | (t', e) :: r => if String.eqb t t' then Some e else cand_lookup t r end.
+
+(* name['key'] : a map subscript printed by fmt.Sprintf (labels['level']) *)
+Fixpoint split_at (sep s : string) (fuel : nat) : option (string * string) :=
+  if prefixb sep s then Some (EmptyString, (fix drop (n : nat) (t : string) := match n, t with S n', String _ r => drop n' r | _, _ => t end) (String.length sep) s)
+  else match s, fuel with
+       | String c r, S f => match split_at sep r f with Some (a, b) => Some (String c a, b) | None => None end
+       | _, _ => None
+       end.
+Definition subscript_of (t : string) : option expr :=
+  match split_at "['" t (String.length t) with
+  | Some (name, rest) =>
+    match split_at "']" rest (String.length rest) with
+    | Some (key, EmptyString) =>
+      if negb (String.eqb name "") && forall_chars (fun c => is_lower c || is_upper c || is_digit c || Ascii.eqb c "_" || Ascii.eqb c ".") name
+         && forall_chars (fun c => negb (Ascii.eqb c "'") && negb (Ascii.eqb c "\")) key
+      then Some (Idx (Id name) (QRaw key)) else None
+    | _ => None
+    end
+  | None => None
+  end.
+
 Section PREP.
   Variable days : list Z.
+  Variable cands : list (string * expr).
 
   Section PSEL.
     Variable pe : list (string * select) -> expr -> expr.
@@ -92,6 +137,9 @@ Section PREP.
     | Idx x k => Idx (prep_e env x) (prep_e env k)
     | Fn name args =>
       if String.eqb name "mapFromArrays" && String.eqb (fst (rexpr e no_opts rst0)) labels_map_raw then Raw labels_map_raw
+      else if String.eqb name "cityHash64" && String.eqb (fst (rexpr e no_opts rst0)) fp_labels_raw then Raw fp_labels_raw
+      else if String.eqb name "mapFromArrays" && match cand_lookup (expr_text e) cands with Some _ => true | None => false end
+      then match cand_lookup (expr_text e) cands with Some m => m | None => e end
       else
         let args' := map (prep_e env) args in
         if String.eqb name "groupBitOr" then
@@ -110,7 +158,11 @@ Section PREP.
                       else Sep sep (map (prep_e env) parts)
       | _ => Sep sep (map (prep_e env) parts)
       end
-    | Raw t => if is_float_lit t then FloatV t else e
+    | Raw t => if is_float_lit t then FloatV t
+               else match cand_lookup (expr_text e) cands with
+                    | Some m => m
+                    | None => match subscript_of t with Some i => i | None => e end
+                    end
     | BitSetAnd cl => BitSetAnd (map (prep_e env) cl)
     | _ => e
     end.
@@ -154,7 +206,26 @@ Definition wrefs_bound (top : select) : bool :=
                      | _, _ => false end)
           (wrefs_sel wrefs_e top).
 
-(* ---------- oracle tables computed by the harness with Go's regexp / strconv ---------- *)
+(* ---------- oracle tables computed by the harness with Go's regexp / strconv / encoding/json ---------- *)
+Definition jg_table := list (string * list string * string).   (* line, path, extracted value *)
+Fixpoint strs_eqb (a b : list string) : bool :=
+  match a, b with
+  | [], [] => true
+  | x :: a', y :: b' => String.eqb x y && strs_eqb a' b'
+  | _, _ => false
+  end.
+Fixpoint jg_lookup (t : jg_table) (s : string) (p : list string) : string :=
+  match t with
+  | [] => ""
+  | (s', p', v) :: r => if String.eqb s s' && strs_eqb p p' then v else jg_lookup r s p
+  end.
+(* a concrete stand-in for cityHash64 over the label map (the theorems hold for every function) *)
+Definition str_hash (s : string) : Z :=
+  (fix go (s : string) (acc : Z) : Z :=
+     match s with EmptyString => acc | String c r => go r ((acc * 131 + Z.of_N (N_of_ascii c) + 1) mod 2305843009213693951)%Z end) s 7%Z.
+Definition hash_concrete (ls : labels) : Z :=
+  fold_left (fun acc kv => ((acc * 1000003 + str_hash (fst kv) * 31 + str_hash (snd kv)) mod 2305843009213693951)%Z) ls 17%Z.
+
 Definition re_table := list (string * string * bool).          (* subject, pattern, regexp.MatchString *)
 Fixpoint re_lookup (t : re_table) (s p : string) : bool :=
   match t with
@@ -206,6 +277,13 @@ Section CHECK.
   Definition sem_b (q : strsel) (c : pctx) (d : database) (res : list outrow) : bool :=
     if Z.eqb (c_limit c) 0 then perm_b res (log_rows re_match parse_float q c d)
     else topk_b (c_asc c) (c_limit c) (log_rows re_match parse_float q c d) res.
+
+  Variable json_get : string -> list string -> string.
+  Variable hash_labels : labels -> Z.
+  (* the same for the whole SQL-planned pipeline (json / drop / filters in any order) *)
+  Definition sem2_b (q : strsel) (c : pctx) (d : database) (res : list outrow) : bool :=
+    if Z.eqb (c_limit c) 0 then perm_b res (log_rows2 re_match parse_float json_get hash_labels q c d)
+    else topk_b (c_asc c) (c_limit c) (log_rows2 re_match parse_float json_get hash_labels q c d) res.
 
   Definition gin_eqb (a b : gin_row) : bool :=
     Z.eqb (g_day a) (g_day b) && String.eqb (g_key a) (g_key b) && String.eqb (g_val a) (g_val b)
@@ -269,6 +347,7 @@ Record scase := {
   sc_tree : select;                (* harness/sqlparse's reading of it *)
   sc_re : re_table;
   sc_pf : pf_table;
+  sc_jg : jg_table;
   sc_dbs : list database
 }.
 
@@ -280,14 +359,15 @@ Definition days_near (c : pctx) : list Z :=
 
 (* result of evaluating a SELECT on one database and judging it: 0 = reference answer, 1 = not the
    reference answer, 2 = does not evaluate inside the modelled subset *)
-Definition judge (re : string -> string -> bool) (pf : string -> option Q) (tie : forall A : Type, list A -> list A)
+Definition judge (re : string -> string -> bool) (pf : string -> option Q) (jg : string -> list string -> string)
+    (hl : labels -> Z) (tie : forall A : Type, list A -> list A)
     (q : strsel) (c : pctx) (d : database) (sel : select) : Z * option (list (option outrow)) :=
-  match eval re pf tie (to_sqldb c d) sel with
+  match eval re pf jg hl tie (to_sqldb c d) sel with
   | None => (2, None)
   | Some rows =>
     let outs := map row_out rows in
     match map_opt (fun o => o) outs with
-    | Some os => ((if sem_b re pf q c d os then 0 else 1)%Z, Some outs)
+    | Some os => ((if sem2_b re pf jg hl q c d os then 0 else 1)%Z, Some outs)
     | None => (1%Z, Some outs)
     end
   end.
@@ -310,7 +390,7 @@ Definition same_rows (a b : option (list (option outrow))) : bool :=
   | _, _ => false
   end.
 Record cverdict := {
-  cv_id : Z; cv_fragment : bool; cv_width : bool; cv_ctx_ok : bool;
+  cv_id : Z; cv_fragment : bool; cv_fragment2 : bool; cv_width : bool; cv_ctx_ok : bool;
   cv_text_ok : bool;               (* render (prep tree) = sc_sql *)
   cv_model_sel : bool;             (* the model planners produce a SELECT *)
   cv_wrefs : bool;                 (* ... whose WithRefs carry the queries their aliases are bound to *)
@@ -320,18 +400,20 @@ Record cverdict := {
 Definition check_case (s : scase) : cverdict :=
   let re := re_lookup (sc_re s) in
   let pf := pf_lookup (sc_pf s) in
+  let jg := jg_lookup (sc_jg s) in
+  let hl := hash_concrete in
   let q := sc_q s in let c := sc_ctx s in
-  let impl := prep (days_near c) (sc_tree s) in
+  let impl := prep (days_near c) (frag_cands q) (sc_tree s) in
   let text_ok := match render impl false with Some t => String.eqb t (sc_sql s) | None => false end in
   let msel := log_select q c in
-  {| cv_id := sc_id s; cv_fragment := in_fragment q; cv_width := width_guard q; cv_ctx_ok := ctx_ok c;
+  {| cv_id := sc_id s; cv_fragment := in_fragment q; cv_fragment2 := in_fragment2 q; cv_width := width_guard q; cv_ctx_ok := ctx_ok c;
      cv_text_ok := text_ok;
      cv_model_sel := match msel with Some _ => true | None => false end;
      cv_wrefs := match msel with Some m => wrefs_bound m | None => true end;
      cv_dbs := map (fun d =>
-       let '(vi, got) := judge re pf tie_id q c d impl in
-       let '(vr, _) := judge re pf tie_rev q c d impl in
-       let '(vm, mgot) := match msel with Some m => judge re pf tie_id q c d m | None => (2%Z, None) end in
+       let '(vi, got) := judge re pf jg hl tie_id q c d impl in
+       let '(vr, _) := judge re pf jg hl tie_rev q c d impl in
+       let '(vm, mgot) := match msel with Some m => judge re pf jg hl tie_id q c d m | None => (2%Z, None) end in
        {| v_db_ok := db_ok_b c d; v_absent := absent_guard_b re q d; v_oracle := oracle_ok_b re pf q d;
           v_impl := vi; v_impl_rev := vr; v_model := vm; v_same := same_rows got mgot; v_got := got;
-          v_want := log_rows re pf q c d; v_nsamples := Z.of_nat (List.length (d_samples d)) |}) (sc_dbs s) |}.
+          v_want := log_rows2 re pf jg hl q c d; v_nsamples := Z.of_nat (List.length (d_samples d)) |}) (sc_dbs s) |}.
